@@ -11,6 +11,8 @@
 (*  {"op":"end","snap":S}                                                  *)
 (* Sequential repetition:                                                  *)
 (*  {"op":"rstart","snap":S} {"op":"reval","env":k,"result":r} {"op":"rend","snap":S} *)
+(* Separate instances: {"op":"iso","a1","a2","b1","b2","c1","c2","d","names0","names1"} results of      *)
+(* separate calculators before / after another one was customised.         *)
 (* Free-running goroutines under the race detector:                        *)
 (*  {"op":"race","mode":M,"goroutines":n,"iters":n,"races":n,"mismatch":n} *)
 (* snap = digest of the compiled program, its constants, the variable      *)
@@ -46,6 +48,8 @@ Fails(e) ==
                            "evaluating again with equal inputs returned a different result")
                          \o F(e.result = e.fresh, "an evaluation interleaved with evaluations under other variable sets differs from a fresh evaluation under the same values")
     [] e.op = "rend" -> F(e.snap = snap0, "evaluation modified the compiled program, its constants, the variable values or the function table")
+    [] e.op = "iso" -> F(e.a1 = e.a2 /\ e.b1 = e.b2 /\ e.c1 = e.c2 /\ e.d = e.c1 /\ e.names0 = e.names1,
+                         "customising one instance (its function table or variables) changed the results or the function table of a separate instance")
     [] e.op = "race" -> F(e.races = 0, "the race detector reported a data race") \o F(e.mismatch = 0, "free-running concurrent evaluations returned results that differ from the sequential ones")
     [] OTHER -> ""
 
